@@ -189,6 +189,8 @@ pub struct TlsWorld {
     pub wedged: bool,
     pub eof_reads: u32,
     pub sent_app: bool,
+    pub eager_close: bool,
+    pub closed_eagerly: bool,
 }
 
 impl TlsWorld {
@@ -230,6 +232,8 @@ impl TlsWorld {
             wedged: false,
             eof_reads: 0,
             sent_app: false,
+            eager_close: false,
+            closed_eagerly: false,
         }
     }
     fn tick(&mut self) {
@@ -351,6 +355,11 @@ impl TlsWorld {
                 }
             }
             self.sent_app = true;
+            if self.eager_close && self.close_notify {
+                // write, then shut the sending side: the alert travels right behind the last command
+                self.conn.send_close_notify();
+                self.closed_eagerly = true;
+            }
         }
     }
 }
